@@ -634,7 +634,38 @@ def _mro_names(mod, cname: str) -> List[str]:
     return out
 
 
+def rule_X1b(ctx, rule: str = "X1") -> None:
+    """the import lines for other packages stand below the message and enum classes of the generated module: two packages
+    that refer to each other are imported one inside the other, and the inner import (`from .. import Type as _Type__`, a
+    class import when the type lives in the root package) only succeeds if the outer module has defined its classes already"""
+    n = 0
+    for comp in ("direct", "310"):
+        for pyd in (False, True):
+            cfg = next(configs(["plain"], compilers=(comp,), pydantic=(pyd,), streaming=[(False, False)]))
+            text, _ = residual(ctx, cfg)
+            tree, err = parse_residual(text)
+            name = f"imports_end-below-the-classes[typing.{comp}{',pydantic' if pyd else ''}]"
+            if tree is None:
+                ctx.inconclusive(rule, name, f"residual module does not parse: {err}", T_BODY)
+                continue
+            n += 1
+            ctx.count(1)
+            imp = [i for i, st in enumerate(tree.body) if isinstance(st, ast.ImportFrom) and any(a.asname == "xpkg__" for a in st.names)]
+            cls = [i for i, st in enumerate(tree.body) if isinstance(st, ast.ClassDef) and any(ast.unparse(b) in ("betterproto.Message", "betterproto.Enum") for b in st.bases)]
+            if not imp or not cls:
+                ctx.inconclusive(rule, name, f"cross-package import line ({len(imp)}) or message classes ({len(cls)}) not found in the residual module", T_BODY)
+            elif min(imp) > max(cls):
+                ctx.proved(rule, name, T_BODY, f"import at statement {min(imp)}, last message / enum class at {max(cls)}")
+            else:
+                ctx.refuted(rule, name, f"import@{min(imp)}<class@{max(cls)}", T_BODY,
+                            "the cross-package import lines are rendered above the message / enum classes: when the imported package refers back to this one (two packages using each "
+                            "other's types, one of them the root package), its `from .. import Type` runs while this module has not defined Type yet - ImportError on import of the generated package",
+                            "a file without package using a type of package p, and a file of p using a type declared without package")
+    ctx.floor(rule, "rendered configurations", n, 2)
+
+
 def rule_X1(ctx) -> None:
+    rule_X1b(ctx)
     mod = ctx.repo.mod(M_MODELS)
     tm = tmodel(ctx)
     # every get_type_reference call passes imports=<...>.imports_end
